@@ -350,6 +350,22 @@ def make_aux_plan(check, seed, run, engine, tier="quick"):
         ops = [dict(op="new", id="e0", cls=cls, args=args),
                dict(op="fit", id="e0", data=0, container=choice(rng, ["F", "csc"]), optimum=False,
                     labels=_labels(rng, ds["kind"]))]
+        if rng.random() < 0.35 and "warm_start" in args:
+            # a constraint tightened between two fits of a warm_start estimator: the second fit
+            # starts from coefficients that are infeasible for it (round 3, DESIGN section 9)
+            args["warm_start"] = True
+            tight = dict(max_iter=args["max_iter"], max_epochs=args["max_epochs"])
+            args["max_iter"], args["max_epochs"] = int(choice(rng, [3, 50])), int(choice(rng, [50, 1000]))
+            if cls == "LinearSVC":
+                tight["C"] = args["C"]
+                args["C"] = float(args["C"] * choice(rng, [3.0, 10.0, 100.0]))
+            else:
+                args["positive"] = False
+                tight["positive"] = True
+            ops.append(dict(op="set_params", id="e0", params=tight))
+            ops.append(dict(op="fit", id="e0", data=0, container=ops[1]["container"], optimum=False,
+                            labels=ops[1]["labels"], tightened=True))
+            return _mk(check, seed, run, engine, [ds], ops, rng)
         if rng.random() < 0.5 and "warm_start" in args:
             args["warm_start"] = True
             ops.append(dict(op="fit", id="e0", data=0, container="F", optimum=False,
